@@ -92,6 +92,14 @@ CHECKS["C12"] = dict(
     ref="DESIGN.md 5.1, 5.5, 8 (C12)",
     technique="TLC model checking of KVStore.tla and Iterator.tla + replay of TLC-exported layouts/scenarios on real code + TLC trace validation")
 
+CHECKS["C13"] = dict(
+    text="Routing.tla transcribes distributePrimaryCopies/distributeBackups, the push, left-over-data reports and fragment moves; TLC checks ValidTable in every "
+         "stable state and exports the membership/write events that lead to each distinct state. The Go driver applies these and seeded random join/leave/crash/re-join "
+         "sequences to real clusters, stabilises, and logs every member's and a client's table, data holders, coordinator and key placements; TLC (RoutingTrace.tla) "
+         "evaluates agreement, validity, the data-holding rule for extra owners, the load bound, the coordinator rule and key placement.",
+    ref="DESIGN.md 5.4, 8 (C13)",
+    technique="TLC model checking of Routing.tla + replay of TLC-exported membership sequences on real clusters + TLC trace validation (RoutingTrace.tla)")
+
 NOT_YET = {}
 
 def main():
